@@ -159,8 +159,11 @@ class Hist:
         self.call(abi, "path_open", dirfd, 0, p, l, oflags, rights, 0, fdflags, r)
         return r
 
-    def generic(self, abi, name, fd, rng=None, fd2=None):
-        """a call of `name` on descriptor fd with harmless other arguments"""
+    def generic(self, abi, name, fd, rng=None, fd2=None, abspath=None):
+        """a call of `name` on descriptor fd with harmless other arguments.  `abspath`: use this (absolute)
+        guest path in every path argument of a path_* call instead of the relative default"""
+        def P(default):
+            return self.path(abspath if abspath is not None else default)
         if name in ("fd_write", "fd_pwrite"):
             p, c = self.iov([b"xy"])
             args = (fd, p, c) + ((3,) if name == "fd_pwrite" else ()) + (self.res(),)
@@ -180,27 +183,27 @@ class Hist:
         elif name == "fd_prestat_dir_name":
             args = (fd, self.res(16), 16)
         elif name == "path_open":
-            p, l = self.path("a")
-            args = (fd, 0, p, l, 0, RIGHTS_RW, 0, 0, self.res())
+            p, l = P("a")
+            args = (fd, 0, p, l, 0, RIGHTS_RW if abspath is None else R_READ, 0, 0, self.res())
         elif name == "path_filestat_get":
-            p, l = self.path("f0")
+            p, l = P("f0")
             args = (fd, 0, p, l, self.res(72))
         elif name == "path_rename":
-            p, l = self.path("u-none")
-            q, m = self.path("u-none2")
+            p, l = P("u-none")
+            q, m = P("u-none2")
             args = (fd, p, l, fd if fd2 is None else fd2, q, m)
         elif name in ("path_unlink_file", "path_remove_directory"):
-            p, l = self.path("u-none")
+            p, l = P("u-none")
             args = (fd, p, l)
         elif name == "path_create_directory":
-            p, l = self.path("d0")            # exists: EEXIST, no state change
+            p, l = P("d0")            # exists: EEXIST, no state change
             args = (fd, p, l)
         elif name == "path_symlink":
             p, l = self.path("u-tgt")
-            q, m = self.path("d0")            # exists: EEXIST
+            q, m = P("d0")            # exists: EEXIST
             args = (p, l, fd, q, m)
         elif name == "path_readlink":
-            p, l = self.path("f0")            # not a symlink: EINVAL
+            p, l = P("f0")            # not a symlink: EINVAL
             args = (fd, p, l, self.res(16), 16, self.res())
         elif name == "fd_filestat_set_size":
             args = (fd, 0)
@@ -211,11 +214,35 @@ class Hist:
         self.call(abi, name, *args)
 
 
+PATH_CALLS = ["path_open", "path_filestat_get", "path_create_directory", "path_remove_directory", "path_unlink_file",
+              "path_rename", "path_symlink", "path_readlink"]
+# absolute guest paths.  wasi.c resolves them as host paths (as-is), so calls that could change the host only get
+# paths below a directory that does not exist; read-only calls also get "/", "/f0", "/d0/f", "//x"
+ABS_SAFE = ["/nonexistent-w2c2verif/x", "//nonexistent-w2c2verif/d0/f"]
+ABS_READONLY = ["/", "/f0", "/d0/f", "//x"] + ABS_SAFE
+READONLY_PATH_CALLS = {"path_open", "path_filestat_get", "path_readlink"}
+
+
+def abs_paths_for(call):
+    return ABS_READONLY if call in READONLY_PATH_CALLS else ABS_SAFE
+
+
 def std_setup(h):
     """initial sandbox contents used by the C12/C13 generators"""
     h.raw("mkdir sb/d0")
     h.raw("mkfile sb/f0 " + b"abcdefghijklmnopqrstuvwxyz".hex())
     h.raw("mkfile sb/d0/g " + b"0123456789".hex())
+
+
+# calls after whose SUCCESS on the real side a side that skipped them (model `r unmodelled`, twin `r skip`) is no
+# longer in the same state (new descriptor, moved position, changed name space): comparison of that history stops
+STATEFUL = {"path_open", "fd_seek", "fd_write", "fd_pwrite", "fd_read", "fd_pread", "fd_close", "path_rename",
+            "path_unlink_file", "path_remove_directory", "path_create_directory", "path_symlink"}
+
+
+def diverges(meta, real_line):
+    p = real_line.split()
+    return bool(meta) and meta["call"] in STATEFUL and p[:2] == ["r", "0"]
 
 
 def table_tokens(line):
